@@ -19,8 +19,8 @@ fn solo(f: Fmt, s: &str) -> String {
 fn multi(f: Fmt, seq: &[String]) -> Result<Vec<String>, String> {
     let e = f.e();
     let r = observe(|| {
-        let refs: Vec<&str> = seq.iter().map(|s| s.as_str()).collect();
-        e.parse_multi(refs)
+        let mut joined = String::new();
+        parse_multi_any(e, seq, &mut joined)
             .into_iter()
             .map(|r| match r {
                 Ok(v) => format!("Ok({})", canon_real_narsese(&v)),
@@ -288,6 +288,105 @@ fn fresh_thread_failure(f: Fmt, s: &str) -> Option<String> {
     None
 }
 
+type EF = narsese::conversion::string::impl_enum::NarseseFormat<&'static str>;
+
+/// a copy of the enum format of `base` whose `ci`-th copula is spelled `alt`
+fn derived_format(base: Fmt, ci: usize, alt: &'static str) -> (EF, &'static str) {
+    let mut d: EF = match base {
+        Fmt::Ascii => narsese::conversion::string::impl_enum::format_instances::FORMAT_ASCII,
+        Fmt::Latex => narsese::conversion::string::impl_enum::format_instances::FORMAT_LATEX,
+        Fmt::Han => narsese::conversion::string::impl_enum::format_instances::FORMAT_HAN,
+    };
+    let st = &mut d.statement;
+    let slot: &mut &'static str = match ci {
+        0 => &mut st.copula_inheritance,
+        1 => &mut st.copula_similarity,
+        2 => &mut st.copula_implication,
+        3 => &mut st.copula_equivalence,
+        4 => &mut st.copula_instance,
+        5 => &mut st.copula_property,
+        6 => &mut st.copula_instance_property,
+        7 => &mut st.copula_implication_predictive,
+        8 => &mut st.copula_implication_concurrent,
+        9 => &mut st.copula_implication_retrospective,
+        10 => &mut st.copula_equivalence_predictive,
+        11 => &mut st.copula_equivalence_concurrent,
+        _ => &mut st.copula_equivalence_retrospective,
+    };
+    let orig = *slot;
+    *slot = alt;
+    (d, orig)
+}
+
+fn class_with(e: &EF, s: &str) -> String {
+    match observe(|| e.parse::<Narsese>(s).map(|v| canon_real_narsese(&v)).map_err(|_| ())) {
+        Obs::Ret(Ok(c)) => format!("Ok({})", c),
+        Obs::Ret(Err(_)) => "Err".to_string(),
+        Obs::Panic(_) => "PANIC".to_string(),
+    }
+}
+
+/// `base` and a one-copula variant of it used alternately on this long-lived thread, and in the
+/// opposite order as the first work of a fresh thread, against each (format, text) parsed alone as
+/// the first work of its own fresh thread
+fn derived_format_check(ctx: &mut Ctx, base: Fmt, bi: usize, ci: usize) {
+    let alt: &'static str = if base == Fmt::Han { "像" } else { "isa" };
+    let (derived, orig) = derived_format(base, ci, alt);
+    let basef: EF = derived_format(base, ci, orig).0;
+    let (l, r) = (basef.statement.brackets.0, basef.statement.brackets.1);
+    let texts: Vec<String> = vec![
+        format!("{}A{}B{}", l, alt, r),
+        format!("{}A{}B{}", l, orig, r),
+        format!("{}A {} B{}", l, alt, r),
+        format!("{}A {} B{}", l, orig, r),
+        format!("{}A{}B{}{}", l, alt, r, basef.sentence.punctuation_judgement),
+    ];
+    // references: every (format, text) alone on its own fresh thread
+    let mut reference: Vec<(bool, usize, String)> = vec![];
+    for (which, e) in [(false, &basef), (true, &derived)] {
+        for (ti, t) in texts.iter().enumerate() {
+            let (t2, e2) = (t.clone(), e.clone());
+            let c = std::thread::spawn(move || class_with(&e2, &t2)).join().unwrap_or_else(|_| "PANIC".into());
+            reference.push((which, ti, c));
+        }
+    }
+    let want = |which: bool, ti: usize| reference.iter().find(|(w, i, _)| *w == which && *i == ti).map(|x| x.2.clone()).unwrap_or_default();
+    // the schedule: base, derived, derived, base, base over all texts
+    let schedule = [false, true, true, false, false];
+    fn run_schedule(basef: &EF, derived: &EF, order: &[bool], texts: &[String]) -> Vec<(bool, usize, String)> {
+        let mut out = vec![];
+        for which in order {
+            for (ti, t) in texts.iter().enumerate() {
+                let e = if *which { derived } else { basef };
+                out.push((*which, ti, class_with(e, t)));
+            }
+        }
+        out
+    }
+    let here = run_schedule(&basef, &derived, &schedule, &texts);
+    let (texts2, b2, d2) = (texts.clone(), basef.clone(), derived.clone());
+    let there = std::thread::spawn(move || run_schedule(&b2, &d2, &[true, false, true, false], &texts2)).join().unwrap_or_default();
+    ctx.report.eval();
+    ctx.report.bump("family.one-copula-variant-formats");
+    ctx.report.nontrivial(&format!("derived|{}|{}", bi, ci));
+    for (place, got) in [("on the long-lived worker thread", here), ("on a fresh thread that used the variant format first", there)] {
+        for (which, ti, c) in got {
+            let w = want(which, ti);
+            if c != w {
+                ctx.report.violate(
+                    format!("C08|derived-format|{}|{}|{}", base.name(), ci, which),
+                    format!(
+                        "[{}] with a copy of the format whose copula {:?} is spelled {:?}: parsing {:?} with the {} format {} gives {} but alone on a fresh thread {}",
+                        base.name(), orig, alt, texts[ti], if which { "variant" } else { "shipped" }, place, c, w
+                    ),
+                    J::obj().set("kind", "derived-format").set("format", base.name()).set("copula_index", ci as u64),
+                );
+                return;
+            }
+        }
+    }
+}
+
 fn check_fresh(ctx: &mut Ctx, f: Fmt, s: &str) {
     ctx.report.eval();
     ctx.report.bump("family.history-vs-fresh-thread");
@@ -301,8 +400,26 @@ fn check_fresh(ctx: &mut Ctx, f: Fmt, s: &str) {
 }
 
 fn check_single(ctx: &mut Ctx, f: Fmt, s: &str) {
+    check_single_one(ctx, f, s, "family.repeat+chars+lexical");
+    // the same input with one invisible / default-ignorable character (zero-width space and joiners,
+    // BOM, word joiner, soft hyphen, ...) at its start, its end and somewhere inside: whatever the
+    // parser makes of it, the string and the character-vector entry points must make the same
+    if ctx.report.evaluations % 2 == 0 {
+        const INVISIBLE: [char; 9] = ['\u{feff}', '\u{200b}', '\u{200c}', '\u{200d}', '\u{2060}', '\u{ad}', '\u{180e}', '\u{34f}', '\u{61c}'];
+        let cs: Vec<char> = s.chars().collect();
+        let h = cs.iter().fold(cs.len() as u64 + ctx.report.evaluations, |a, c| a.wrapping_mul(31).wrapping_add(*c as u64));
+        for (j, pos) in [0usize, cs.len(), (h >> 7) as usize % (cs.len() + 1)].into_iter().enumerate() {
+            let mut v = cs.clone();
+            v.insert(pos, INVISIBLE[(h as usize + j) % INVISIBLE.len()]);
+            let t: String = v.into_iter().collect();
+            check_single_one(ctx, f, &t, "family.invisible-character-inserted");
+        }
+    }
+}
+
+fn check_single_one(ctx: &mut Ctx, f: Fmt, s: &str, family: &str) {
     ctx.report.eval();
-    ctx.report.bump("family.repeat+chars+lexical");
+    ctx.report.bump(family);
     if let Some(w) = single_failure(f, s) {
         ctx.report.violate(
             format!("C08|single|{}|{}", f.name(), s),
@@ -437,6 +554,17 @@ pub fn run(ctx: &mut Ctx) {
             }
         }
     }
+    // formats that differ from a shipped one in a single copula: "the format" is a value, so two
+    // formats that share most (not all) of their vocabulary must not influence each other either
+    for (bi, base) in ALL_FMT.iter().enumerate() {
+        for ci in 0..13usize {
+            idx += 1;
+            if !ctx.mine(idx) {
+                continue;
+            }
+            derived_format_check(ctx, *base, bi, ci);
+        }
+    }
     // long batches: one fragment repeated many times (accumulating hidden state), then every
     // fragment once; and the whole catalogue cycled
     for f in ALL_FMT {
@@ -529,7 +657,12 @@ pub fn replay(ctx: &mut Ctx, d: &J) -> Option<()> {
     }
     let f = fmt_of(d)?;
     match jstr(d, "kind")?.as_str() {
-        "single" => check_single(ctx, f, &jstr(d, "input")?),
+        "derived-format" => {
+            let ci = d.get("copula_index")?.as_i128()? as usize;
+            let bi = ALL_FMT.iter().position(|x| *x == f)?;
+            derived_format_check(ctx, f, bi, ci);
+        }
+        "single" => check_single_one(ctx, f, &jstr(d, "input")?, "replay"),
         "lexical-history" => {
             let v: Vec<String> = d.get("inputs")?.as_arr()?.iter().filter_map(|x| x.as_str().map(|s| s.to_string())).collect();
             lexical_interleaving(ctx, f, v.first()?, v.get(1)?);
